@@ -33,11 +33,16 @@ type qcfg struct {
 	inbound int      // client data messages fed to the read loop (0-2)
 	echo    bool     // OnMessage answers with WriteMessage (a writer on the read-loop thread)
 	early   bool     // the inbound frames are readable before Upgrade is called
+	direct  bool     // BlockingModAsyncWrite=false: same Upgrade path, frames written under the mutex by the caller
 	p       int
 }
 
 func (c qcfg) name() string {
-	return fmt.Sprintf("queued F=%d writers=%s qmax=%d failAt=%d close=%s inbound=%d echo=%v early=%v",
+	mode := "queued"
+	if c.direct {
+		mode = "blocking-direct"
+	}
+	return fmt.Sprintf(mode+" F=%d writers=%s qmax=%d failAt=%d close=%s inbound=%d echo=%v early=%v",
 		c.f, strings.Join(c.writers, ","), c.qmax, c.failAt, c.closeBy, c.inbound, c.echo, c.early)
 }
 
@@ -114,7 +119,7 @@ func queuedBody(c qcfg) func() {
 		u.Engine = eng
 		u.KeepaliveTime = 0
 		u.CheckOrigin = func(*http.Request) bool { return true }
-		u.BlockingModAsyncWrite = true
+		u.BlockingModAsyncWrite = !c.direct
 		u.BlockingModHandleRead = true
 		u.BlockingModSendQueueInitSize = 1
 		u.BlockingModSendQueueMaxSize = uint16(c.qmax)
@@ -152,7 +157,7 @@ func queuedBody(c qcfg) func() {
 		upgraded := w.tick()
 		fc.armed = true
 		wsc.SetSession("session")
-		if !wsc.IsAsyncWrite() || !wsc.IsBlockingMod() {
+		if wsc.IsAsyncWrite() == c.direct || !wsc.IsBlockingMod() {
 			vsched.Fail("harness|Upgrade did not produce a blocking-mode connection with a send queue")
 			return
 		}
@@ -262,6 +267,14 @@ func queuedBody(c qcfg) func() {
 		vsched.WaitIdle()
 
 		res := judgeWire(w, fc.wire(), msgs, false, true, c.name()+" at the end")
+		if c.direct && res.v != nil {
+			// direct mode: nil means every frame was handed to the conn before the call returned
+			for _, m := range msgs {
+				if m.ret != 0 && m.err == nil && res.count[m.id] == 0 {
+					w.failf("wire-lost|direct mode: message %s was written (nil error) but is not on the wire; wire=%s", m.id, wireStr(res.frames))
+				}
+			}
+		}
 		l.judge(inPayloads, true, true, c.name())
 		if !fc.closed {
 			w.failf("conn-not-closed|the read loop ended / Close was called but the underlying conn was never closed")
